@@ -27,7 +27,7 @@ theorem foldFinish_sim {env : Env} (hu : env.useLimits = true) {parent : Compone
     (hact : c.vertexAt? g.fromVid = some c.active)
     (T' : List Eid) {computed computed' : List Ctx}
     (hcomp : computed.map (Ctx.norm T' false) = computed'.map (Ctx.norm T' false))
-    (hclear : g.minEligible = true → ∀ e ∈ computed, e.foldedValues = [])
+    (hclear : g.minEligible parent = true → ∀ e ∈ computed, e.foldedValues = [])
     (hsmall : computed.length < 2 ^ 64)
     {r : Option Ctx} (h0 : foldFinish env.noLimits parent g (none, none) c computed = .ok r) :
     ∃ r', foldFinish env parent g lim c' computed' = .ok r' ∧
@@ -40,18 +40,59 @@ theorem foldFinish_sim {env : Env} (hu : env.useLimits = true) {parent : Compone
   simp only [keptElems_noLimits] at h0
   rw [foldFinish_eq, hv', hact]
   simp only
-  by_cases he : g.minEligible = true
+  by_cases he : g.minEligible parent = true
   · -- the fold is truncated to `k` elements
-    obtain ⟨k, rfl, hmin⟩ := foldLimits_eligible hu hgf hg he hlim
+    obtain ⟨k, rfl, hmin⟩ := foldLimits_eligible hu he hlim
     have hT := mem_truncEids_of_eligible hg he
     have he' := he
     simp only [Fold.minEligible, Bool.and_eq_true, Bool.not_eq_true', List.isEmpty_eq_false_iff,
       List.isEmpty_iff] at he'
-    obtain ⟨⟨⟨hne, _⟩, hout⟩, hfo⟩ := he'
+    obtain ⟨⟨⟨⟨hne, _⟩, hcho⟩, hfo⟩, _⟩ := he'
+    have hout : g.component.outputs = [] := (componentHasOutputs_false g.component hcho).1
+    -- the slot of `g` is free in both contexts
+    have hfree : c.foldCount? g.eid = none → c'.foldCount? g.eid = none := by
+      intro hnone
+      have h1 := norm_foldCount?_isSome (truncEids parent) false c g.eid
+      have h2 := norm_foldCount?_isSome (truncEids parent) false c' g.eid
+      rw [hc, h2, hnone] at h1
+      cases hx : c'.foldCount? g.eid <;> simp_all
     cases ha : c.active with
     | none =>
+      -- the fold does not exist for this context (missing `@optional` scope): no elements on
+      -- either side, and the post-filters let the context pass
       rw [ha] at h0
-      exact absurd (finishTail_none_post h0) hne
+      simp only [Option.isSome_none, Bool.false_eq_true, if_false] at h0
+      simp only [keptElems, Option.isSome_none, Bool.false_eq_true, if_false]
+      obtain ⟨hnone, c2, hc2, hslot, hact2, o, ho, hr⟩ := finishTail_ok h0
+      simp only [Option.map_none] at hslot hc2
+      have hnone' := hfree hnone
+      have hc1 : ({ c with foldCounts := c.foldCounts ++ [(g.eid, none)] } : Ctx).norm
+            (truncEids parent) false =
+          ({ c' with foldCounts := c'.foldCounts ++ [(g.eid, none)] } : Ctx).norm
+            (truncEids parent) false := by
+        rw [norm_append_slot_none, norm_append_slot_none, hc]
+      obtain ⟨c2', hc2', hn2⟩ := rel_of_comm (removeTags_norm (truncEids parent) false g.imports) hc1 hc2
+      obtain ⟨f1, f2⟩ := removeTags_fields hc2'
+      have hslot' : c2'.foldCount? g.eid = some none := by
+        rw [foldCount?_of_foldCounts_eq f1, foldCount?_append_self _ hnone']
+      have hact2' : c2'.active = none := by rw [f2]; show c'.active = none; rw [hact', ha]
+      have hact2n : c2.active = none := by rw [hact2, ha]
+      rw [applyPostFilters_noLimits,
+        minFoldLimit_pass_nonexistent env parent g g.post k hmin c2 hslot hact2n] at ho
+      simp only [R.ok.injEq] at ho
+      subst ho
+      obtain ⟨news, c4, hnews, h4, rfl⟩ := hr
+      have hnil : foldOutputs env g none = .ok [] :=
+        foldOutputs_nil env g none hfo hout (hgf.nested g hg he) (fun es hes => by cases hes)
+      rw [foldOutputs_noLimits, hnil] at hnews
+      simp only [R.ok.injEq] at hnews
+      subst hnews
+      obtain ⟨c4', h4', hn4⟩ := rel_of_comm (f := fun x => mergeFolded x [])
+        (fun x => mergeFolded_norm (truncEids parent) x []) hn2 h4
+      refine ⟨some c4', ?_, by simp [hn4]⟩
+      simp only [finishTail, hnone', Option.isSome_none, Bool.false_eq_true, if_false,
+        Option.map_none, hc2', R.bind_ok,
+        minFoldLimit_pass_nonexistent env parent g g.post k hmin c2' hslot' hact2', hnil, h4']
     | some v =>
       rw [ha] at h0
       simp only [Option.isSome_some, if_true] at h0
@@ -59,11 +100,7 @@ theorem foldFinish_sim {env : Env} (hu : env.useLimits = true) {parent : Compone
       obtain ⟨hnone, c2, hc2, hslot, hact2, o, ho, hr⟩ := finishTail_ok h0
       simp only [Option.map_some] at hslot hc2
       -- the context of the run with limits
-      have hnone' : c'.foldCount? g.eid = none := by
-        have h1 := norm_foldCount?_isSome (truncEids parent) false c g.eid
-        have h2 := norm_foldCount?_isSome (truncEids parent) false c' g.eid
-        rw [hc, h2, hnone] at h1
-        cases hx : c'.foldCount? g.eid <;> simp_all
+      have hnone' := hfree hnone
       have hc1 : ({ c with foldCounts := c.foldCounts ++ [(g.eid, some computed.length)] } : Ctx).norm
             (truncEids parent) false =
           ({ c' with foldCounts := c'.foldCounts ++ [(g.eid, some (computed'.take k).length)] } : Ctx).norm
@@ -116,7 +153,7 @@ theorem foldFinish_sim {env : Env} (hu : env.useLimits = true) {parent : Compone
         refine ⟨some c4', ?_, by simp [hn4]⟩
         simp [hnews', h4']
   · -- no min limit: only the early drop of `collect_fold_elements` can differ
-    have he' : g.minEligible = false := by simpa using he
+    have he' : g.minEligible parent = false := by simpa using he
     obtain ⟨hl2, hmax⟩ := foldLimits_not_eligible hu he' hlim
     have hT := not_mem_truncEids_of_not_eligible hg hgf.nodup he'
     -- the generic case: the same elements are kept
